@@ -323,6 +323,7 @@ struct E1 : Engine {
 		cfg["http_timeout"] = 10 + (int)r.below(20); gen_limit() = 0; if(prop == "C12" && r.below(2)){ static const int lk[] = {1,4,16,64,2048}; cfg["content_limit_kb"] = lk[r.below(5)]; cfg["multipart_limit_kb"] = std::max<int>(lk[r.below(5)],(int)cfg.geti("content_limit_kb")*2); gen_limit() = (size_t)cfg.geti("content_limit_kb") * 1024; } { static const int fm[] = {0,1,100,4096,131072}; cfg["file_in_memory_limit"] = fm[r.below(5)]; }
 		p["cfg"] = cfg;
 		bool faults = r.below(3) == 0;
+		if(prop == "C12" && r.below(4) == 0){ J fa = J::arr(); int nf = 1 + (int)r.below(3); for(int i=0;i<nf;i++) fa.push((int)r.below(r.below(2) ? 6 : 60)); p["disk_fail_at"] = fa; p["disk_sticky"] = (int)r.below(2); }   // disk full / I/O error while an upload spills to its temporary file
 		p["p_short_read"] = r.below(2) ? (int)r.below(500) : 0; p["p_short_write"] = r.below(2) ? (int)r.below(500) : 0; p["p_eintr"] = faults ? (int)r.below(40) : 0; p["p_spurious"] = faults ? (int)r.below(80) : 0;
 		int nconn = 1 + r.below(prop == "C03" ? 3 : 5);
 		J conns = J::arr(); int tagn = 0;
@@ -486,6 +487,7 @@ struct E1 : Engine {
 		sp.pct_depth = (int)std::max<int64_t>(1,std::min<int64_t>(plan.geti("pct_depth",2),8)); sp.pct_len = (int)std::max<int64_t>(1,plan.geti("pct_len",500)); sp.tick_us = (int)std::max<int64_t>(1,std::min<int64_t>(plan.geti("tick_us",1),10000));
 		sp.p_short_read = (unsigned)std::max<int64_t>(0,std::min<int64_t>(plan.geti("p_short_read"),1000)); sp.p_short_write = (unsigned)std::max<int64_t>(0,std::min<int64_t>(plan.geti("p_short_write"),1000));
 		sp.p_eintr = (unsigned)std::max<int64_t>(0,std::min<int64_t>(plan.geti("p_eintr"),200)); sp.p_spurious = (unsigned)std::max<int64_t>(0,std::min<int64_t>(plan.geti("p_spurious"),300));
+		sp.stdio_track = "/cppcms_uploads_"; if(plan.has("disk_fail_at")){ const J &fa = plan.get("disk_fail_at"); for(size_t i=0;i<fa.size() && i<8;i++) sp.stdio_fail_at.push_back((uint32_t)std::max<int64_t>(0,std::min<int64_t>(fa.a[i].as_int(),100000))); sp.stdio_sticky = plan.geti("disk_sticky") != 0; }
 		sp.max_steps = 6000000; sp.text_trace = plan.geti("text_trace");
 		simk::begin(sp);
 		const J &cfg = plan.get("cfg");
@@ -550,7 +552,7 @@ struct E1 : Engine {
 		AW = nullptr;
 		// ------------------------------------------------------------ oracles
 		std::map<std::string,std::string> cache_pages;
-		int n_raw = 0, n_aborted = 0; int n_on_error = 0; int n_filtered = 0; int n_over_limit = 0; int n_gzip_empty = 0; int n_bad = 0, n_bad_refused = 0; int n_cache_hits = 0; int n_ex = 0, n_multi_seg = 0, n_body = 0, n_keepalive_followups = 0, n_writer = 0, n_gzip = 0, n_chunked = 0;
+		int n_raw = 0, n_aborted = 0; int n_disk_refused = 0; int n_on_error = 0; int n_filtered = 0; int n_over_limit = 0; int n_gzip_empty = 0; int n_bad = 0, n_bad_refused = 0; int n_cache_hits = 0; int n_ex = 0, n_multi_seg = 0, n_body = 0, n_keepalive_followups = 0, n_writer = 0, n_gzip = 0, n_chunked = 0;
 		for(auto &cl:clients){ int port = 8080; bool conn_had_error = false; bool aborted_conn = false;
 			for(size_t i=0;i<cl->ex.size() && res.ok;i++){ Exchange &e = cl->ex[i]; n_ex++; if(e.seg.size() > 1) n_multi_seg++; if(e.req.has_body && !e.req.body.empty()) n_body++; if(i > 0 && !e.conn_closed_early) n_keepalive_followups++;
 				std::string who = std::string(cl->proto == 0 ? "http" : cl->proto == 1 ? "scgi" : "fastcgi") + " " + e.req.script + " request " + e.tag;
@@ -583,6 +585,8 @@ struct E1 : Engine {
 					if(e.resp.status != 413){ res.fail("limit-not-enforced",who + ": body of " + std::to_string(e.req.body.size()) + " bytes exceeds the configured limit but was answered with status " + std::to_string(e.resp.status)); break; }
 					if(ent0 != 0){ res.fail("limit-not-enforced",who + ": over-limit request reached the application"); break; }
 					continue; }
+				if(st.stdio_fail && !e.req.boundary.empty() && !raw_filtered && (e.resp.status == 413 || e.resp.status == 500 || e.resp.status == 503)){   // the disk failed under an upload: refusing the request is right, delivering it in part is not
+					if(aw.entered.count(e.tag) && aw.entered[e.tag]){ res.fail("refused-upload-reached-application",who + ": answered " + std::to_string(e.resp.status) + " after a disk error but the application ran"); break; } n_disk_refused++; continue; }
 				if(e.resp.status != 200){ res.fail("unexpected-status",who + ": status " + std::to_string(e.resp.status) + " for a well-formed request; body " + esc(e.resp.body.substr(0,200))); break; }
 				int ent = aw.entered.count(e.tag) ? aw.entered[e.tag] : 0;
 				if(ent != 1){ res.fail(ent == 0 ? "handler-not-entered" : "handler-entered-twice",who + ": main() entered " + std::to_string(ent) + " times"); break; }
@@ -627,6 +631,7 @@ struct E1 : Engine {
 		if(res.ok && leaked) res.fail("descriptor-leak",std::to_string(leaked) + " simulated descriptors still open after the service was destroyed");
 		if(res.ok && !aw.exception.empty()) res.fail("exception-escaped",aw.exception);
 		res.counters["raw_mode_responses"] = n_raw; res.counters["client_aborts_mid_response"] = n_aborted; res.counters["filter_on_error_calls"] = n_on_error; res.counters["content_filter_requests"] = n_filtered; res.counters["filters_installed"] = aw.filters_installed; res.counters["over_limit_413"] = n_over_limit; res.counters["gzip_announced_empty_body"] = n_gzip_empty; res.counters["malformed_exchanges"] = n_bad; res.counters["malformed_refused_as_required"] = n_bad_refused; res.counters["page_cache_hits"] = n_cache_hits; res.counters["exchanges"] = n_ex; res.counters["multi_segment_requests"] = n_multi_seg; res.counters["requests_with_body"] = n_body; res.counters["keepalive_followups"] = n_keepalive_followups; res.counters["writer_responses"] = n_writer; res.counters["gzip_responses"] = n_gzip; res.counters["chunked_responses"] = n_chunked;
+		res.counters["disk_faults_injected"] = (long long)st.stdio_fail; res.counters["upload_spill_stdio_calls"] = (long long)st.stdio_ops; res.counters["uploads_refused_after_disk_fault"] = n_disk_refused;
 		res.counters["steps"] = (long long)st.steps; res.counters["switches"] = (long long)st.switches; res.counters["short_reads"] = (long long)st.short_reads; res.counters["short_writes"] = (long long)st.short_writes; res.counters["eagain"] = (long long)(st.eagain_r + st.eagain_w);
 		res.counters["eintr"] = (long long)st.eintr; res.counters["spurious_wakeups"] = (long long)st.spurious; res.counters["accepts"] = (long long)st.accepts; res.counters["bytes_to_server"] = (long long)st.bytes_rx; res.counters["bytes_to_client"] = (long long)st.bytes_tx;
 		res.counters["sim_seconds"] = sim_s; res.counters[rt == 0 ? "reactor_epoll" : rt == 1 ? "reactor_poll" : "reactor_select"] = 1;
